@@ -537,7 +537,9 @@ func (s *Sess) exec(in ssa.Instruction, st *State) {
 			}
 			allowed = or(cs...)
 		}
-		s.oblige(st, "panic", fmt.Sprintf("panic@%d", s.ord[in]), allowed, x.Pos(), "explicit panic is unreachable: "+x.String())
+		if s.ct == nil || s.ct.Opts["panics"] != "allowed" {
+			s.oblige(st, "panic", fmt.Sprintf("panic@%d", s.ord[in]), allowed, x.Pos(), "explicit panic is unreachable: "+x.String())
+		}
 		st.reach = "false"
 	case *ssa.SliceToArrayPointer:
 		v := s.val(x.X)
@@ -668,6 +670,13 @@ func (s *Sess) makeIface(v Val, T types.Type) string {
 		s.global(func() { s.assume(fact) })
 	}
 	return fmt.Sprintf("(mk-iface %d %s)", tag, bt)
+}
+
+func (s *Sess) makeIfaceQuiet(v Val, T types.Type) string {
+	if isRefLike(T) {
+		return fmt.Sprintf("(mk-iface %d %s)", s.tc.tagOf(T), v.t)
+	}
+	return s.makeIface(v, T)
 }
 
 func (s *Sess) unboxIface(iv string, T types.Type) string {
